@@ -281,10 +281,17 @@ def normalize_text(t):
     return "\n".join(l.strip() for l in t.splitlines() if l.strip())
 
 
-def parse_roundtrip(text):
+def has_bool_literal(text):
+    return bool(_BOOL_T.search(text) or _BOOL_F.search(text))
+
+
+def parse_roundtrip(text, normalize_bool=True):
     """-> (status, detail): status in ok | unsupported | mismatch | not-idempotent"""
     from vyper.venom.parser import parse_venom
-    text = _BOOL_T.sub("1", _BOOL_F.sub("0", text))      # SCCP can create IRLiteral(True/False), printed as such
+    if normalize_bool:
+        # IRLiteral(True/False) is reported separately (key C14:sccp-bool-literal-not-reparsable); normalised here so that the
+        # rest of the snapshot is still checked
+        text = _BOOL_T.sub("1", _BOOL_F.sub("0", text))
     try:
         ctx = parse_venom(text)
     except Exception as e:  # noqa
